@@ -257,6 +257,7 @@ class H2Client:
         self.ws: Dict[int, WSParser] = {}
         self.started = False
         self.prebuf: List[Tuple[bytes, float]] = []
+        self.skipped: List[Tuple[str, str]] = []  # commands the client library refused (name, exception)
 
     def stream(self, sid: int) -> dict:
         if sid not in self.streams:
@@ -393,8 +394,9 @@ class H2Client:
                 return self.take() + args[0]
             else:
                 raise ValueError(name)
-        except (h2.exceptions.ProtocolError, KeyError):
-            # the command is no longer legal for the client (stream closed meanwhile): skip it
+        except (h2.exceptions.ProtocolError, KeyError) as e:
+            # the command is no longer legal for the client (stream closed meanwhile): skip it, visibly
+            self.skipped.append((name, type(e).__name__))
             return self.take()
         return self.take()
 
